@@ -268,6 +268,15 @@ func (a *Agent) gatherCandidatesInternal(ctx context.Context) {
 	// An empty network type list means "all network types", as everywhere else.
 	networkTypes := configuredNetworkTypes(a.networkTypes)
 
+	// UpdateOptions(WithUrls) replaces the URL list inside the task loop: take the
+	// snapshot there instead of reading it from the gatherer goroutines.
+	var urls []*stun.URI
+	if err := a.loop.Run(a.loop, func(context.Context) { //nolint:contextcheck
+		urls = a.urls
+	}); err != nil {
+		return
+	}
+
 	var wg sync.WaitGroup
 	for _, t := range a.candidateTypes {
 		switch t {
@@ -278,11 +287,11 @@ func (a *Agent) gatherCandidatesInternal(ctx context.Context) {
 				wg.Done()
 			}()
 		case CandidateTypeServerReflexive:
-			a.gatherServerReflexiveCandidates(ctx, &wg, networkTypes)
+			a.gatherServerReflexiveCandidates(ctx, &wg, urls, networkTypes)
 		case CandidateTypeRelay:
 			wg.Add(1)
 			go func() {
-				a.gatherCandidatesRelay(ctx, a.urls)
+				a.gatherCandidatesRelay(ctx, urls)
 				wg.Done()
 			}()
 		case CandidateTypePeerReflexive, CandidateTypeUnspecified:
@@ -293,15 +302,17 @@ func (a *Agent) gatherCandidatesInternal(ctx context.Context) {
 	wg.Wait()
 }
 
-func (a *Agent) gatherServerReflexiveCandidates(ctx context.Context, wg *sync.WaitGroup, networkTypes []NetworkType) {
+func (a *Agent) gatherServerReflexiveCandidates(
+	ctx context.Context, wg *sync.WaitGroup, urls []*stun.URI, networkTypes []NetworkType,
+) {
 	replaceSrflx := a.addressRewriteMapper != nil && a.addressRewriteMapper.shouldReplace(CandidateTypeServerReflexive)
 	if !replaceSrflx {
 		wg.Add(1)
 		go func() {
 			if a.udpMuxSrflx != nil {
-				a.gatherCandidatesSrflxUDPMux(ctx, a.urls, networkTypes)
+				a.gatherCandidatesSrflxUDPMux(ctx, urls, networkTypes)
 			} else {
-				a.gatherCandidatesSrflx(ctx, a.urls, networkTypes)
+				a.gatherCandidatesSrflx(ctx, urls, networkTypes)
 			}
 			wg.Done()
 		}()
